@@ -6,6 +6,9 @@ import runseeds
 sid = sys.argv[1]; checks = sys.argv[2:]
 prop = sid.split("-")[0]
 wt = "/tmp/seed_" + prop
+created = False
+if not os.path.isdir(wt):
+    runseeds.sh("git worktree add -q --detach %s HEAD" % wt, cwd="/repo"); created = True
 runseeds.sh("git checkout -q -- . && git checkout -q --detach main", cwd=wt)
 rc, out = runseeds.sh("git apply /verif/seeded/%s/patch.diff" % sid, cwd=wt)
 assert rc == 0, out
@@ -19,3 +22,5 @@ for c in checks:
 meta["detected_by"] = [c for c, v in meta["ran"]["checks"].items() if v["rc"] == 1]
 json.dump(meta, open("/verif/seeded/%s/meta.json" % sid, "w"), indent=1)
 runseeds.sh("git checkout -q -- .", cwd=wt)
+if created:
+    runseeds.sh("git worktree remove --force %s" % wt, cwd="/repo")
